@@ -339,6 +339,53 @@ def check_positions(rep, binary, rng, airports, fields, count):
             rep.violation(f"C16:wrong-reference:{cname}", f"position {q!r} gave {res.get('reference')}, expected {exp}", replay)
 
 
+def check_cli(rep, binary, strings, workdir):
+    """the same strings as a command-line argument of the real executable: clap must report a usage error (exit 2) or
+    accept the source (the process then keeps running and is stopped); a panic while parsing aborts with exit 101"""
+    import os
+    import subprocess
+    import time
+    import sysjet
+    cache = sysjet.make_cache(os.path.join(workdir, "cache"))
+    env = dict(os.environ, XDG_CACHE_HOME=cache, RUST_BACKTRACE="0")
+    env.pop("JET1090_VERIF", None)
+    procs = []
+    for s in strings:
+        if "\x00" in s:
+            continue  # not representable in argv
+        try:
+            p = subprocess.Popen([binary, "--history-expire", "0", "--", s], stdout=subprocess.DEVNULL, stderr=subprocess.PIPE,
+                                 stdin=subprocess.DEVNULL, env=env, cwd=workdir)
+        except (OSError, ValueError):
+            continue
+        procs.append((s, p))
+    time.sleep(1.5)
+    for s, p in procs:
+        running = p.poll() is None
+        if running:
+            p.terminate()
+        try:
+            _, err = p.communicate(timeout=10)
+        except subprocess.TimeoutExpired:
+            p.kill()
+            _, err = p.communicate()
+        err = err.decode(errors="replace")
+        rep.evaluations += 1
+        panics = sysjet.payload_panics(err)
+        replay = {"mode": "cli", "arg": s}
+        # a panic of a receiver task after a source was accepted (nothing listens on the other side) is not a parsing matter
+        parse_panic = [q for q in panics if "source.rs" in q or "cpr.rs" in q or "main.rs" in q]
+        if (not running and p.returncode == 101) or parse_panic:
+            rep.violation(panic_sig("cli", (parse_panic or panics or ["?"])[0].split("panicked at ")[-1]),
+                          f"jet1090 -- {s[:120]!r} aborted (exit {p.returncode}): {(panics or [err[-200:]])[0][:300]}", replay)
+        elif running:
+            rep.cls("cli:accepted(still running, stopped)")
+        elif p.returncode == 2:
+            rep.cls("cli:usage-error(exit 2)")
+        else:
+            rep.cls(f"cli:exit-{p.returncode}")
+
+
 def worker(args):
     shard, nshards, tier, seed, binary = args
     rep = Rep("C16")
@@ -362,7 +409,13 @@ def worker(args):
     check_total(rep, binary, muts, "source", "mutated-random")
     check_total(rep, binary, [random_string(rng) for _ in range(150 * scale)], "source", "random")
     check_total(rep, binary, [random_string(rng) for _ in range(40 * scale)], "pos", "position-random")
-    rep.extra["mandatory"] = ["wellformed:tcp", "wellformed:udp", "wellformed:ws", "wellformed:rtlsdr", "wellformed:short",
+    import os
+    work = os.path.join(os.path.dirname(os.path.dirname(os.path.dirname(binary))), "tmp", f"cli16_{shard}")
+    os.makedirs(work, exist_ok=True)
+    check_cli(rep, binary, fixed + muts[:12 * scale], work)
+    rep.assumptions.append("command line: the fixed and some of the random mutated specifications are also given to the real executable as its "
+                           "source argument (after --): a usage error or a running process is fine, an abort while parsing is a violation")
+    rep.extra["mandatory"] = ["cli:usage-error(exit 2)", "wellformed:tcp", "wellformed:udp", "wellformed:ws", "wellformed:rtlsdr", "wellformed:short",
                               "toml:tcp", "toml:udp", "toml:websocket", "toml:rtlsdr", "position:airport", "position:latlon",
                               "mutated-fixed", "mutated-random", "random", "position-hostile", "serial-compared:string-vs-table",
                               "serial-compared:two-processes"]
